@@ -14,14 +14,19 @@ from .exc import Lattice
 FAULT_CLASSES = {'ConnectionClosedError'}
 
 E3 = 'e3'
+E3P = 'e3p'     # (un)pickling of a payload failed - a fault of the data, not of the transport
 USER = 'user'
+
+
+def _const_payload(call):
+    return bool(call.args) and isinstance(call.args[0], ast.Constant)
 
 # --- external functions by dotted name (after alias expansion) -----------------------------------
 EXT_FUNCS = {
     'struct.unpack': [],                                # struct.error only if the buffer size is wrong: excluded by C10.R1/R2 (exact read of calcsize bytes)
     'struct.pack': [],
-    'pickle.loads': [('Exception', E3)],                # unpickling runs arbitrary __setstate__/imports
-    'pickle.load': [('Exception', E3)],
+    'pickle.loads': [('Exception', E3P)],               # unpickling runs arbitrary __setstate__/imports
+    'pickle.load': [('Exception', E3P)],
     'copy.deepcopy': [('UserException', USER)],         # runs user __deepcopy__/__reduce__
     'copy.copy': [],
     'os.kill': [('OSError', E3)],                       # ESRCH when the process is gone
@@ -43,18 +48,18 @@ def method_raises(name, call, recv):
         if nargs == 0:
             # multiprocessing Connection.recv: EOFError at EOF, OSError on a truncated message/reset,
             # anything while unpickling the payload
-            return [('EOFError', E3), ('OSError', E3), ('Exception', E3)]
+            return [('EOFError', E3), ('OSError', E3), ('Exception', E3P)]
         return [('OSError', E3)]                         # socket.recv(n)
     if name == 'send':
         if 'sock' in r.lower():
             return [('OSError', E3)]
-        # Connection.send: OSError/BrokenPipeError when the peer is gone, pickling errors
-        return [('OSError', E3), ('Exception', E3)]
+        # Connection.send: BrokenPipeError when the peer is gone (EPIPE on the socket pair), pickling errors
+        return [('BrokenPipeError', E3)] + ([] if _const_payload(call) else [('Exception', E3P)])
     if name in ('sendall', 'connect', 'accept', 'bind', 'listen', 'shutdown', 'getpeername'):
         return [('OSError', E3)]
     if name == 'put':
         # PipeEndpoint.put -> Connection.send ; queue.Queue.put never raises (unbounded)
-        return [('OSError', E3), ('Exception', E3)]
+        return [('BrokenPipeError', E3)] + ([] if _const_payload(call) else [('Exception', E3P)])
     if name == 'get_nowait' and 'pipe' not in r and 'endpoint' not in r:
         return [('queue.Empty', 'explicit')]
     if name == 'pop':
@@ -62,9 +67,9 @@ def method_raises(name, call, recv):
             return []                                    # dict.pop(k, default)
         return [('IndexError', 'explicit')] if nargs <= 1 and 'list' else []
     if name == 'poll':
-        return [('OSError', E3)]
+        return []                                        # select on an open handle
     if name in ('dump',):
-        return [('Exception', E3)]                       # Pickler.dump: unpicklable object
+        return [('Exception', E3P)]                      # Pickler.dump: unpicklable object
     if name in ('__getstate__', '__setstate__', '__getnewargs__', '__getnewargs_ex__'):
         return [('UserException', USER)]
     if name == 'remove':
@@ -199,6 +204,8 @@ class Analyzer:
             return out
         if r[0] == 'ext':
             d = r[1]
+            if d == 'os.kill' and call.args and isinstance(call.args[0], ast.Call) and (dotted(call.args[0].func) or '') == 'os.getpid':
+                return []        # signalling oneself cannot fail with ESRCH
             if d in EXT_FUNCS:
                 return EXT_FUNCS[d]
             base = d.split('.')[-1]
